@@ -91,9 +91,180 @@ pub fn run() -> i32 {
                     panicked
                 )
             }
+            // composite LEAVES OPS : a real composite source (g = Generic leaf, r = hand-written leaf that takes its
+            // token from the factory and talks to the poller itself) in a real loop; after the insertion and after each
+            // operation, the sub-ids under which its leaves sit in the poller
+            "composite" => composite(w[1], w.get(2).copied().unwrap_or("")),
             _ => "bad-op".to_string(),
         };
         writeln!(out, "{}", res).unwrap();
     }
     0
+}
+
+
+// ---- sub-tokens of a composite source, as the poller holds them --------------------------------------------------
+
+use calloop::generic::Generic;
+use calloop::{EventLoop, EventSource, Interest, Mode, Poll, PostAction, Readiness, Token, TokenFactory};
+use std::cell::Cell;
+use std::os::fd::{AsFd, AsRawFd, BorrowedFd, OwnedFd};
+use std::rc::Rc;
+
+#[derive(Clone)]
+struct Fd(Rc<OwnedFd>);
+impl AsFd for Fd {
+    fn as_fd(&self) -> BorrowedFd<'_> {
+        self.0.as_fd()
+    }
+}
+
+enum Leaf {
+    Gen(Generic<Fd>),
+    Raw { fd: Fd, token: Option<Token> },
+}
+
+struct Composite {
+    leaves: Vec<Leaf>,
+    want_rereg: Rc<Cell<bool>>,
+}
+
+impl EventSource for Composite {
+    type Event = ();
+    type Metadata = ();
+    type Ret = ();
+    type Error = std::io::Error;
+
+    fn process_events<F>(&mut self, r: Readiness, t: Token, mut cb: F) -> Result<PostAction, Self::Error>
+    where
+        F: FnMut((), &mut ()),
+    {
+        for leaf in self.leaves.iter_mut() {
+            match leaf {
+                Leaf::Gen(g) => {
+                    g.process_events(r, t, |_, f| {
+                        let mut b = [0u8; 8];
+                        let _ = rustix::io::read(f.as_fd(), &mut b);
+                        cb((), &mut ());
+                        Ok(PostAction::Continue)
+                    })?;
+                }
+                Leaf::Raw { fd, token } => {
+                    if *token == Some(t) {
+                        let mut b = [0u8; 8];
+                        let _ = rustix::io::read(fd.as_fd(), &mut b);
+                        cb((), &mut ());
+                    }
+                }
+            }
+        }
+        Ok(if self.want_rereg.replace(false) { PostAction::Reregister } else { PostAction::Continue })
+    }
+
+    fn register(&mut self, poll: &mut Poll, tf: &mut TokenFactory) -> calloop::Result<()> {
+        for leaf in self.leaves.iter_mut() {
+            match leaf {
+                Leaf::Gen(g) => g.register(poll, tf)?,
+                Leaf::Raw { fd, token } => {
+                    let t = tf.token();
+                    unsafe { poll.register(fd.as_fd(), Interest::READ, Mode::Level, t)? };
+                    *token = Some(t);
+                }
+            }
+        }
+        Ok(())
+    }
+
+    fn reregister(&mut self, poll: &mut Poll, tf: &mut TokenFactory) -> calloop::Result<()> {
+        for leaf in self.leaves.iter_mut() {
+            match leaf {
+                Leaf::Gen(g) => g.reregister(poll, tf)?,
+                Leaf::Raw { fd, token } => {
+                    let t = tf.token();
+                    poll.reregister(fd.as_fd(), Interest::READ, Mode::Level, t)?;
+                    *token = Some(t);
+                }
+            }
+        }
+        Ok(())
+    }
+
+    fn unregister(&mut self, poll: &mut Poll) -> calloop::Result<()> {
+        for leaf in self.leaves.iter_mut() {
+            match leaf {
+                Leaf::Gen(g) => g.unregister(poll)?,
+                Leaf::Raw { fd, token } => {
+                    poll.unregister(fd.as_fd())?;
+                    *token = None;
+                }
+            }
+        }
+        Ok(())
+    }
+}
+
+fn composite(leaves: &str, ops: &str) -> String {
+    use rustix::event::{eventfd, EventfdFlags};
+    let mut el: EventLoop<'static, ()> = match EventLoop::try_new() {
+        Ok(e) => e,
+        Err(_) => return "err".into(),
+    };
+    let epfd = el.as_raw_fd();
+    let fds: Vec<Fd> = leaves.chars().map(|_| Fd(Rc::new(eventfd(0, EventfdFlags::CLOEXEC | EventfdFlags::NONBLOCK).unwrap()))).collect();
+    let want_rereg = Rc::new(Cell::new(false));
+    let src = Composite {
+        leaves: leaves
+            .chars()
+            .zip(fds.iter())
+            .map(|(c, fd)| if c == 'g' { Leaf::Gen(Generic::new(fd.clone(), Interest::READ, Mode::Level)) } else { Leaf::Raw { fd: fd.clone(), token: None } })
+            .collect(),
+        want_rereg: want_rereg.clone(),
+    };
+    let token = match el.handle().insert_source(src, |_, _, _| {}) {
+        Ok(t) => t,
+        Err(_) => return "insert-err".into(),
+    };
+    let (sid, sver, _) = v::reg_token_fields(token);
+    let stage = |out: &mut Vec<String>, own: &mut bool| {
+        let s = std::fs::read_to_string(format!("/proc/self/fdinfo/{}", epfd)).unwrap_or_default();
+        let mut subs = Vec::new();
+        for fd in &fds {
+            let raw = fd.0.as_raw_fd();
+            let mut found = None;
+            for l in s.lines().filter(|l| l.starts_with("tfd:")) {
+                let f: Vec<&str> = l.split_whitespace().collect();
+                if f[1].parse::<i32>().ok() == Some(raw) {
+                    found = Some(u64::from_str_radix(f[5], 16).unwrap_or(0));
+                }
+            }
+            match found {
+                Some(k) => {
+                    let (a, b, c) = v::token_unpack(k as usize);
+                    *own &= a == sid && b == sver;
+                    subs.push(format!("{}", c));
+                }
+                None => subs.push("-".into()),
+            }
+        }
+        out.push(subs.join(","));
+    };
+    let mut out = Vec::new();
+    let mut own = true;
+    let mut ok = true;
+    stage(&mut out, &mut own);
+    for op in ops.split(',').filter(|x| !x.is_empty()) {
+        match op {
+            "update" => ok &= el.handle().update(&token).is_ok(),
+            "disable" => ok &= el.handle().disable(&token).is_ok(),
+            "enable" => ok &= el.handle().enable(&token).is_ok(),
+            "rereg" => {
+                want_rereg.set(true);
+                let _ = rustix::io::write(fds[0].as_fd(), &1u64.to_ne_bytes());
+                ok &= el.dispatch(Some(std::time::Duration::ZERO), &mut ()).is_ok();
+            }
+            _ => {}
+        }
+        stage(&mut out, &mut own);
+    }
+    format!("{} own={} ok={}", out.join(";"), own, ok)
 }
